@@ -5,7 +5,7 @@ from __future__ import annotations
 import ast
 from typing import Iterator
 
-from .loader import FuncInfo, ModuleInfo, Repo
+from .loader import AnalysisError, FuncInfo, ModuleInfo, Repo
 
 
 def parents(root: ast.AST) -> dict[int, ast.AST]:
@@ -133,4 +133,240 @@ def assignments_to(func: ast.AST, name: str) -> list[ast.AST]:
             out.append(n.value)
         elif isinstance(n, ast.NamedExpr) and n.target.id == name:
             out.append(n.value)
+    return out
+
+
+# ---------------------------------------------------------------------------------------------- truth-table path walk
+def atom_key(e: ast.AST) -> tuple[str, bool]:
+    """(atom text, polarity) of a leaf of a boolean test: `a != b` is the atom `a == b` negated, `x is not y` likewise."""
+    if isinstance(e, ast.UnaryOp) and isinstance(e.op, ast.Not):
+        k, p = atom_key(e.operand)
+        return k, not p
+    if isinstance(e, ast.Compare) and len(e.ops) == 1:
+        op = e.ops[0]
+        l, r = ast.unparse(e.left), ast.unparse(e.comparators[0])
+        if isinstance(op, (ast.Eq, ast.NotEq)):
+            a, b = sorted((l, r))
+            return f"{a} == {b}", isinstance(op, ast.Eq)
+        if isinstance(op, (ast.Is, ast.IsNot)):
+            a, b = sorted((l, r))
+            return f"{a} is {b}", isinstance(op, ast.Is)
+        if isinstance(op, (ast.In, ast.NotIn)):
+            return f"{l} in {r}", isinstance(op, ast.In)
+    return ast.unparse(e), True
+
+
+def test_atoms(test: ast.AST) -> set[str]:
+    if isinstance(test, ast.BoolOp):
+        return set().union(*(test_atoms(v) for v in test.values))
+    if isinstance(test, ast.UnaryOp) and isinstance(test.op, ast.Not):
+        return test_atoms(test.operand)
+    return {atom_key(test)[0]}
+
+
+def eval_test(test: ast.AST, valuation: dict[str, bool]) -> bool | None:
+    """Truth value of a test under a valuation of its atoms (None when an atom is not valued)."""
+    if isinstance(test, ast.BoolOp):
+        vals = [eval_test(v, valuation) for v in test.values]
+        if isinstance(test.op, ast.And):
+            if any(v is False for v in vals):
+                return False
+            return None if any(v is None for v in vals) else True
+        if any(v is True for v in vals):
+            return True
+        return None if any(v is None for v in vals) else False
+    if isinstance(test, ast.UnaryOp) and isinstance(test.op, ast.Not):
+        v = eval_test(test.operand, valuation)
+        return None if v is None else not v
+    if isinstance(test, ast.Constant):
+        return bool(test.value)
+    k, pol = atom_key(test)
+    if k not in valuation:
+        return None
+    return valuation[k] if pol else not valuation[k]
+
+
+def walk_path(body: list[ast.stmt], valuation: dict[str, bool]) -> tuple[list[ast.stmt], str]:
+    """The straight-line statements executed from `body` under the valuation, and how the walk ends:
+    'raise' | 'return' | 'continue' | 'break' | 'end' | 'unknown:<test>' (an `if` whose test the valuation does not decide)."""
+    out: list[ast.stmt] = []
+
+    def go(stmts: list[ast.stmt]) -> str | None:
+        for st in stmts:
+            if isinstance(st, ast.If):
+                v = eval_test(st.test, valuation)
+                if v is None:
+                    return "unknown:" + ast.unparse(st.test)
+                r = go(st.body if v else st.orelse)
+                if r is not None:
+                    return r
+                continue
+            out.append(st)
+            if isinstance(st, ast.Raise):
+                return "raise"
+            if isinstance(st, ast.Return):
+                return "return"
+            if isinstance(st, ast.Continue):
+                return "continue"
+            if isinstance(st, ast.Break):
+                return "break"
+        return None
+
+    end = go(body)
+    return out, end or "end"
+
+
+# ---------------------------------------------------------------------------------------------- alias-insensitive views
+def pure_locals(func: ast.AST) -> dict[str, ast.expr]:
+    """Locals of `func` bound exactly once, by a plain assignment, to a pure expression (names, attributes, subscripts,
+    constants, operators, type()/len()/slice()/isinstance())."""
+    from . import canon
+
+    out: dict[str, ast.expr] = {}
+    bound = canon._bound_names(func)
+    params = set(canon._params(func))
+    for n in walk_no_nested(func):
+        tgt = canon._single_name_target(n) if isinstance(n, ast.stmt) else None
+        if tgt is not None and tgt.id not in params and len(bound.get(tgt.id, [])) == 1 and canon._is_pure(n.value):
+            out[tgt.id] = n.value
+    return out
+
+
+def expanded(func: ast.AST, e: ast.AST, depth: int = 6) -> str:
+    """Normalised text of `e` with the pure single-assignment locals of `func` replaced by their definitions, so that a rule
+    comparing it against an expected expression does not depend on which sub-expressions happen to be named."""
+    import copy as _copy
+
+    from . import canon
+
+    pl = pure_locals(func)
+    cur = _copy.deepcopy(e)
+    for _ in range(depth):
+        names = {n.id for n in ast.walk(cur) if isinstance(n, ast.Name) and isinstance(n.ctx, ast.Load)} & set(pl)
+        if not names:
+            break
+        holder = ast.Expression(body=cur) if isinstance(cur, ast.expr) else ast.Module(body=[cur], type_ignores=[])
+        holder = canon._Subst({k: pl[k] for k in names}).visit(holder)
+        cur = holder.body if isinstance(holder, ast.Expression) else holder.body[0]
+    return ast.unparse(cur)
+
+
+def local_callees(repo: Repo, fi: FuncInfo) -> list[FuncInfo]:
+    """Nested functions of `fi` plus repository functions of the same module that `fi` (or a nested function) calls by name."""
+    out: list[FuncInfo] = []
+
+    def inner(f: FuncInfo):
+        for g in f.inner.values():
+            out.append(g)
+            inner(g)
+
+    inner(fi)
+    for c in calls(fi.node, nested=True):
+        g = None
+        if isinstance(c.func, ast.Name) and c.func.id in fi.module.functions:
+            g = fi.module.functions[c.func.id]
+        elif isinstance(c.func, ast.Attribute) and isinstance(c.func.value, ast.Name) and fi.cls is not None and c.func.value.id in ("self", "cls", fi.cls.name):
+            g = repo.lookup_method(fi.cls, c.func.attr)
+        if g is not None and g not in out and g is not fi:
+            out.append(g)
+            inner(g)
+    return out
+
+
+def worker(repo: Repo, fi: FuncInfo) -> FuncInfo:
+    """The helper that does the work of `fi`: its nested function, or — when that has been hoisted — the function of the
+    same module / class it delegates to."""
+    cs = local_callees(repo, fi)
+    if not cs:
+        raise AnalysisError(f"{fi.qual}: no nested or delegated helper found")
+    return cs[0]
+
+
+class Fold:
+    """One left fold: acc = init; for item in iter: acc = step(acc, item) — from functools.reduce or an explicit loop.
+    `step` is normalised text with the accumulator spelled $acc and the item variables $0, $1, ..."""
+
+    def __init__(self, init: ast.AST, iter_: ast.AST, step: str, node: ast.AST, form: str, result: str | None) -> None:
+        self.init, self.iter, self.step, self.node, self.form, self.result = init, iter_, step, node, form, result
+
+
+def _rename_text(e: ast.AST, mapping: dict[str, str]) -> str:
+    import copy as _copy
+
+    e = _copy.deepcopy(e)
+    for n in ast.walk(e):
+        if isinstance(n, ast.Name) and n.id in mapping:
+            n.id = mapping[n.id]
+    return ast.unparse(e)
+
+
+def folds(repo: Repo, m: ModuleInfo, func: ast.AST) -> list[Fold]:
+    out: list[Fold] = []
+
+    def item_map(target: ast.AST) -> dict[str, str]:
+        names = [n.id for n in ast.walk(target) if isinstance(n, ast.Name)]
+        return {n: f"${i}" for i, n in enumerate(names)}
+
+    for n in walk_no_nested(func):
+        # reduce(f, iterable, init)
+        if isinstance(n, ast.Call) and callee_name(repo, m, n) == "functools.reduce" and len(n.args) == 3 and not n.keywords:
+            f, it, init = n.args
+            if isinstance(f, ast.Lambda) and len(f.args.args) == 2:
+                a, b = f.args.args[0].arg, f.args.args[1].arg
+                step_e, imap = f.body, {b: "$0"}
+                acc = a
+            else:
+                d = repo.dotted_of(m, f) or ast.unparse(f)
+                ops = {"operator.or_": ast.BitOr, "operator.add": ast.Add, "operator.mul": ast.Mult, "operator.and_": ast.BitAnd}
+                if d not in ops:
+                    continue
+                step_e = ast.BinOp(left=ast.Name(id="$acc", ctx=ast.Load()), op=ops[d](), right=ast.Name(id="$0", ctx=ast.Load()))
+                imap, acc = {}, "$acc"
+            # a generator argument `(E for T in IT)` is folded into the step: item := E
+            if isinstance(it, ast.GeneratorExp) and len(it.generators) == 1 and not it.generators[0].ifs:
+                g = it.generators[0]
+                import copy as _copy
+
+                from . import canon
+
+                elt = _copy.deepcopy(it.elt)
+                for x in ast.walk(elt):
+                    if isinstance(x, ast.Name) and x.id in (im := item_map(g.target)):
+                        x.id = im[x.id]
+                step_c = _copy.deepcopy(step_e)
+                for x in ast.walk(step_c):
+                    if isinstance(x, ast.Name):
+                        if x.id == acc:
+                            x.id = "$acc"
+                        elif x.id in imap or x.id == "$0":
+                            x.id = "__item__"
+                step_c = canon._Subst({"__item__": elt}).visit(ast.Expression(body=step_c)).body
+                out.append(Fold(init, g.iter, ast.unparse(step_c), n, "reduce", None))
+            else:
+                out.append(Fold(init, it, _rename_text(step_e, {acc: "$acc", **imap}), n, "reduce", None))
+    # explicit loops: `acc = INIT` ; `for T in IT: acc = STEP`
+    for block_owner in ast.walk(func):
+        for fld in ("body", "orelse", "finalbody"):
+            block = getattr(block_owner, fld, None)
+            if not (isinstance(block, list) and block and isinstance(block[0], ast.stmt)):
+                continue
+            for i in range(1, len(block)):
+                loop, prev = block[i], block[i - 1]
+                if not (isinstance(loop, ast.For) and not loop.orelse and len(loop.body) == 1):
+                    continue
+                s = loop.body[0]
+                if isinstance(s, ast.Assign) and len(s.targets) == 1 and isinstance(s.targets[0], ast.Name):
+                    acc, step_e = s.targets[0].id, s.value
+                elif isinstance(s, ast.AugAssign) and isinstance(s.target, ast.Name):
+                    acc, step_e = s.target.id, ast.BinOp(left=ast.Name(id=s.target.id, ctx=ast.Load()), op=s.op, right=s.value)
+                else:
+                    continue
+                init = None
+                if isinstance(prev, ast.Assign) and len(prev.targets) == 1 and isinstance(prev.targets[0], ast.Name) and prev.targets[0].id == acc:
+                    init = prev.value
+                elif isinstance(prev, ast.AnnAssign) and isinstance(prev.target, ast.Name) and prev.target.id == acc and prev.value is not None:
+                    init = prev.value
+                if init is None or acc not in {x.id for x in ast.walk(step_e) if isinstance(x, ast.Name)}:
+                    continue
+                out.append(Fold(init, loop.iter, _rename_text(step_e, {acc: "$acc", **item_map(loop.target)}), loop, "loop", acc))
     return out
